@@ -15,7 +15,7 @@ TIERS = {
     'thorough': {'budget': 400, 'watchdog': 900, 'shards': 16},
 }
 NAMESPACES = ['/', '/a', '/b']
-EVENTS = ['ev0', 'ev1', 'ev2', 'my event', 'é!', 'unhandled_x']
+EVENTS = ['ev0', 'ev1', 'ev2', 'my event', 'é!', 'unhandled_x', 'ev_g']
 HANDLED = ['ev0', 'ev1', 'ev2', 'my event', 'é!']
 CLASS_EVENTS = ['ev0', 'ev1', 'ev2']
 IDS = [None, None, 0, 0, 1, 1, 2, 7, 10, 10**20]
@@ -84,6 +84,12 @@ class History:
                             return _fn(*a)
                         body['on_' + ev] = m
                 h.c.register_namespace(type('CN', (base,), body)(ns))
+        # a function handler registered under the catch-all namespace '*' for
+        # one event only: it is the rightful target of that event on every
+        # namespace that has no function handler / catch-all of its own
+        self.global_ev = rng.random() < 0.4
+        if self.global_ev:
+            h.on('ev_g', self.mk_global('ev_g'), '*', self.co)
         self.out = {}       # ns -> {id: token}
         self.used = {}      # ns -> set(ids)
         self.fired = set()
@@ -97,6 +103,18 @@ class History:
         def handler(*args):
             self.ninv += 1
             self.events.append(('handler', ns, ev, list(args), via))
+            tok = args[0] if args else None
+            hook = getattr(self, 'hooks', {}).get(tok) \
+                if isinstance(tok, int) else None
+            if hook is not None:
+                return hook()
+            return self.returns.get(tok)
+        return handler
+
+    def mk_global(self, ev):
+        def handler(ns, *args):
+            self.ninv += 1
+            self.events.append(('handler', ns, ev, list(args), 'global'))
             tok = args[0] if args else None
             return self.returns.get(tok)
         return handler
@@ -116,6 +134,8 @@ class History:
             return 'func'
         if st == 'catchall':
             return 'catchall'
+        if self.global_ev and ev == 'ev_g':
+            return 'global'
         if st == 'class' and ev in CLASS_EVENTS:
             return 'class'
         return None
@@ -123,6 +143,7 @@ class History:
     def witness(self, extra=None):
         w = {'case_index': self.index, 'kind': self.kind,
              'config': {'serializer': self.serializer, 'style': self.style,
+                        'global_ev': self.global_ev,
                         'coroutines': self.co},
              'history': self.ops[-25:], 'errors': self.h.all_errors(),
              'outstanding': {ns: dict(v) for ns, v in self.out.items()}}
@@ -325,6 +346,75 @@ class History:
                   len(self.out.get(ns, {}))),
                  {'op': op} if cls != 'correct' else None)
 
+    def do_binary_recovery(self):
+        """A binary event whose handler raises, or whose handler is still
+        running when the next packet is dispatched (python-engineio runs every
+        incoming message on its own task / thread): the packets that follow
+        are handled and acknowledged normally."""
+        rng, ctx, h = self.rng, self.ctx, self.h
+        cand = [ns for ns in self.nss if self.style[ns] == 'func']
+        if not cand or self.serializer != 'default':
+            return
+        ns = rng.choice(cand)
+        mode = rng.choice(['raises', 'overlaps'])
+        self.tok += 2
+        t1, t2 = self.tok - 1, self.tok
+        self.hooks = {}
+        self.returns[t1] = 'r1'
+        self.returns[t2] = {'second': t2}
+        if mode == 'raises':
+            def boom():
+                raise RuntimeError('application handler failed')
+            self.hooks[t1] = boom
+        elif h.is_async and self.co:
+            self.hooks[t1] = lambda: D.Delay('r1', 0.5)
+        elif not h.is_async:
+            def slow():
+                h.pump()        # the other message threads run meanwhile
+                return 'r1'
+            self.hooks[t1] = slow
+        else:
+            self.hooks = {}
+            return
+        op = ['binary_recovery', mode, ns, t1, t2]
+        self.ops.append(op)
+        ev0 = len(self.events)
+        h.clear_errors()
+        h.deliver(R.EVENT, ns, 21, ['ev0', t1, b'blob', {'k': [b'']}])
+        h.deliver(R.EVENT, ns, 22, ['ev1', t2, 'text'])
+        h.pump()
+        self.hooks = {}
+        errs = [e for e in h.all_errors()
+                if 'application handler failed' not in (e.get('msg') or '')
+                and 'application handler failed' not in (e.get('tb') or '')]
+        h.clear_errors()
+        sent = self.new_sent()
+        inv = [e for e in self.events[ev0:] if e[0] == 'handler']
+        ctx.count('binary_recoveries_' + mode)
+        extra = {'op': op, 'invocations': inv,
+                 'sent': [[p['type'], p['nsp'], p['id'], p['data']]
+                          for p in sent], 'errors': errs[:2]}
+        second = [e for e in inv if e[3] and e[3][0] == t2]
+        ack2 = [p for p in sent if p['type'] == R.ACK and p['id'] == 22 and
+                p['nsp'] == ns]
+        if errs or len(second) != 1 or len(ack2) != 1 or \
+                not R.deep_eq(ack2[0]['data'], [{'second': t2}]):
+            return self.fail('the packet that followed a binary event whose '
+                             'handler %s was not handled normally: %d '
+                             'invocations, ACKs %r, errors %r' % (
+                                 mode, len(second),
+                                 [p['data'] for p in ack2],
+                                 [e.get('exc') for e in errs[:2]]), extra)
+        first = [e for e in inv if e[3] and e[3][0] == t1]
+        ack1 = [p for p in sent if p['id'] == 21]
+        if len(first) != 1 or (mode == 'raises' and ack1) or (
+                mode == 'overlaps' and (len(ack1) != 1 or
+                                        ack1[0]['data'] != ['r1'])):
+            return self.fail('binary event whose handler %s: %d invocations, '
+                             'ACKs %r' % (mode, len(first),
+                                          [p['data'] for p in ack1]), extra)
+        ctx.case((self.kind, 'binary_recovery', mode), {'op': op})
+
     def do_dup_ack_race(self):
         """The same ACK arrives twice, the second one while the callback
         started by the first is still running.  python-engineio's clients
@@ -510,6 +600,8 @@ class History:
             return self.do_call()
         if r < 0.72:
             return self.do_dup_ack_race()
+        if r < 0.74:
+            return self.do_binary_recovery()
         return self.do_server_ack()
 
     def close(self):
@@ -546,6 +638,8 @@ def run(ctx):
     ctx.require('acks_checked', 30)
     ctx.require('acks_judged', 50)
     ctx.require('duplicate_ack_races', 5)
+    ctx.require('binary_recoveries_raises', 3)
+    ctx.require('binary_recoveries_overlaps', 3)
     ctx.require('callbacks_checked', 20)
     ctx.require('calls_judged', 20)
     ctx.require('call_timeouts_observed', 5)
